@@ -72,7 +72,16 @@ def _work(task):
         v, norm = check(p)
         normalised += 1 if norm else 0
         for clause, detail in v:
-            key = f"{family}|{clause}|{_path_class(detail) if clause != 'round_trip_raises' else detail[:60]}"
+            pc = _path_class(detail) if clause != 'round_trip_raises' else detail[:60]
+            kfam = family
+            if family == "tensor_in_model" and clause == "not_lossless":
+                # the same leaf defect seen through a model: key it by the leaf (context prefix of the path dropped)
+                import re
+
+                stripped = ",".join(sorted({re.sub(r"^.*(\.initializer\[\]|\.tensors\[\]|\.t)(?=\.)", "", x) for x in pc.split(",")}))
+                if stripped != pc:
+                    kfam, pc = "tensor", stripped
+            key = f"{kfam}|{clause}|{pc}"
             found.setdefault(key, {"family": family, "label": label, "clause": clause, "detail": detail,
                                    "proto_text": str(p)[:1500]})
     return family, n, normalised, found
@@ -94,6 +103,14 @@ def _family(family, tier):
         for label, m in gp.gen_models(tier, pairs=True):
             if "+" in label:
                 yield label, m
+    elif family == "model_triples":
+        yield from gp.gen_triples()
+    elif family == "tensor_in_model":
+        yield from gp.gen_tensors_in_context(tier)
+    elif family == "type_in_model":
+        yield from gp.gen_types_in_context(tier)
+    elif family == "attribute_in_model":
+        yield from gp.gen_attributes_in_context(tier)
     elif family == "subgraph":
         yield "small_graph", gp.small_graph()
         for label, m in gp.gen_models(tier, pairs=False):
@@ -102,7 +119,9 @@ def _family(family, tier):
 
 def main(tier):
     r = common.Run("C02", "exploration", tier)
-    fams = ["tensor", "value_info", "attribute", "model", "subgraph", "model_pairs"]
+    fams = ["tensor", "value_info", "attribute", "model", "subgraph", "model_pairs", "tensor_in_model", "type_in_model", "attribute_in_model"]
+    if tier == "thorough":
+        fams.append("model_triples")
     tasks = []
     sizes = {}
     for f in fams:
@@ -127,7 +146,7 @@ def main(tier):
     r.sample({"family": "model", "label": "if_with_captures@10", "deviation_catalogue": [n for n, _ in gp.DEVIATIONS]})
     r.sample({"family": "tensor", "example": str(gp.tensor(onnx.TensorProto.INT4, [3], "int32_data"))[:200]})
     r.coverage.update({
-        "evaluations": total, "distinct_nontrivial": sum(p[1] for p in per.values()) + per.get("model", [0])[0] + per.get("model_pairs", [0])[0],
+        "evaluations": total, "distinct_nontrivial": sum((v[0] if k in ("model", "model_pairs", "model_triples", "tensor_in_model", "type_in_model", "attribute_in_model") else v[1]) for k, v in per.items()),
         "rule": "a case is one generated proto; non-trivial = its round trip differs textually but is equal after the documented normalisations, or it is a composite model",
         "exhaustive": True, "families": {k: {"protos": v[0], "equal_only_after_normalisation": v[1]} for k, v in sorted(per.items())},
         "deviations": len(gp.DEVIATIONS),
